@@ -202,7 +202,7 @@ def check_property(pid, a, seed, timeout_ms, t0):
     bounded = []
     driver = None
     if not a.no_bounded:
-        fqs = [fq for fq in sorted(scheduled) if eng.contracts[fq].get("battery")]
+        fqs = [fq for fq in sorted(scheduled) if eng.contracts[fq].get("battery") and "#" not in fq]
         tmpd = tempfile.mkdtemp(prefix="verif-")
         try:
             procs = []
